@@ -3,11 +3,13 @@ package props
 
 import (
 	"github.com/GuanceCloud/platypus/internal/verifsim/c09"
+	"github.com/GuanceCloud/platypus/internal/verifsim/c13"
 	"github.com/GuanceCloud/platypus/internal/verifsim/c14"
 	"github.com/GuanceCloud/platypus/internal/verifsim/core"
 )
 
 func init() {
 	core.Register(c09.Prop{})
+	core.Register(c13.Prop{})
 	core.Register(c14.Prop{})
 }
